@@ -20,3 +20,24 @@ package asp
 //@   ensures same_length [C17 C18]: len(unbox(result, pyFrozenList).pyList) == len(l)
 //@   ensures deep [C17]: forall k int :: 0 <= k && k < len(l) ==> \
 //@      unbox(result, pyFrozenList).pyList[k] == ite(dyntype(l[k], freezable), unbox(l[k], freezable).Freeze(), l[k])
+
+// ---------------------------------------------------------------------------------------------
+// Builtins that reorder lists return NEW lists (C16, C17)
+//
+// sorted() and reversed() follow Python: the argument list is left exactly as it was (so a list another
+// package or another variable still refers to is never reordered behind its back). Frame obligation: no
+// in-place write reaches a backing array reachable from the arguments (`modifies heap`: the key function and
+// the comparison operators are arbitrary code and may do anything to the heap; the argument list's own
+// elements are what is protected).
+//@ func sorted
+//@   property C16 C17
+//@   modifies heap
+//@   opt nopanic=off
+//@   opt panics=allowed
+//@   opt permutation=multiset
+//@ func reversed
+//@   property C16 C17
+//@   modifies heap
+//@   opt nopanic=off
+//@   opt panics=allowed
+//@   opt permutation=multiset
